@@ -32,6 +32,18 @@ public:
   virtual void dump_registers();
   virtual int run(int max_cycles, int step);
 
+protected:
+  // Word accesses ignore bit 0 of the address, like the CPU does.
+  virtual void ram_write16(uint32_t address, uint16_t data)
+  {
+    Simulate::ram_write16(address & 0xfffe, data);
+  }
+
+  virtual uint16_t ram_read16(uint32_t address)
+  {
+    return Simulate::ram_read16(address & 0xfffe);
+  }
+
 private:
   void sp_inc(int *sp);
   uint16_t get_data(int reg_index, int As, int bw, int &ea, bool do_mem_read = true);
